@@ -111,6 +111,35 @@ def _build_stmts(m, stmts, sigs):
             raise ValueError(k)
 
 
+def _target_signals(t, acc):
+    k = t[0]
+    if k == "sig":
+        acc.add(t[1])
+    elif k in ("cat", "array"):
+        for p in t[1]:
+            _target_signals(p, acc)
+    else:
+        _target_signals(t[1], acc)
+
+
+def _targets(stmts, acc):
+    for st in stmts:
+        k = st[0]
+        if k == "assign":
+            _target_signals(st[2], acc)
+        elif k == "if":
+            for _, body in st[1]:
+                _targets(body, acc)
+            if st[2] is not None:
+                _targets(st[2], acc)
+        elif k == "switch":
+            for _, body in st[2]:
+                _targets(body, acc)
+        elif k == "fsm":
+            for _, body in st[4]:
+                _targets(body, acc)
+
+
 class Programs:
     """Seeded random statement programs.
 
@@ -160,10 +189,11 @@ class Programs:
             pass
         prog = {"signals": self.sigs, "stmts": stmts, "fsms": self.fsms}
         # a signal no statement drives is an input, whatever it was meant to be
-        from ..refstmt import StmtOracle
-        driven = StmtOracle(prog).driven
+        # (a signal that only appears under an empty slice still counts as driven for the language)
+        mentioned = set()
+        _targets(stmts, mentioned)
         for n, v in self.sigs.items():
-            if v[3] != "in" and not driven.get(n, 0):
+            if v[3] != "in" and n not in mentioned:
                 v[3] = "in"
         return prog
 
